@@ -251,7 +251,7 @@ func (multi *MultiEpoch) handleGetBlock(ctx context.Context, conn *requestContex
 						txNode, err := epochHandler.GetTransactionByCid(ctx, tcid)
 						if err != nil {
 							klog.Errorf("failed to decode Transaction %s: %v", tcid, err)
-							return nil
+							return fmt.Errorf("failed to get transaction %s: %w", tcid, err)
 						}
 						mu.Lock()
 						allTransactionNodes[entryIndex][txI] = txNode
